@@ -67,6 +67,9 @@ def clone_val(v):
     return v   # Ref (Rc / &), str, int, XNode
 
 
+HASH_MAPS_PER_PATH = 4
+
+
 class SMI(Machine):
     # ------------------------------------------------------------------ fmt
     def display(self, v):
@@ -190,6 +193,11 @@ class SMI(Machine):
             return list(range(n))
         if m.order is not None and len(m.order) == n:
             return m.order
+        # bound: the first HASH_MAPS_PER_PATH maps (with two or three entries) iterated on a path get a symbolic order,
+        # later ones iterate in insertion order
+        self.hash_maps_seen = getattr(self, 'hash_maps_seen', 0) + 1
+        if self.hash_maps_seen > HASH_MAPS_PER_PATH or n > 3:
+            return list(range(n))
         perms = list(itertools.permutations(range(n)))
         sel = z3.Int('hashorder_%d_%d' % (m.id % 1000, n))
         self.pc.append(z3.And(sel >= 0, sel < len(perms)))
